@@ -20,6 +20,8 @@ def encode_sources(R):
                  'is_job_group_cancelled', 'attempts_before_update', 'attempts_after_update', 'instances_before_update'):
         r = catalog.routine(name)
         R.encode(f"{r['file']}:{r['line']} {name}", r['rest'])
+    from . import driverq
+    driverq.encode(R)
     import ast
     from .. import loader
     for rel, names in (('batch/batch/front_end/front_end.py', ['create_batch', '_create_batch', '_create_batch_update',
